@@ -25,7 +25,7 @@ Executable model of one inertial-flow bisection step: `src/inertial_flow.rs` (`s
   subStep          : sort, then `subStepSorted`
 
 `StepOut.panic` = a branch in which the Rust panics (slice out of range, `debug_assert!`s on empty
-contracted ends / empty flow graph / empty sides, BitVec index out of range) or the model ran out of fuel;
+contracted ends / empty sides) or the model ran out of fuel;
 `StepOut.aborted` = `Err(FlowError::String(_))` because the solver stopped at the bound.
 The `axis >= 4` guard (`Err(AxisOutOfBounds)`) is outside the property's quantifier; `axisKey` maps such
 an axis to comparator 3 and the driver never passes one.
@@ -149,22 +149,39 @@ def prep (edges : List (Nat × Nat)) (sortedIds : List Nat) (k : Nat) : Prep :=
   { sources := sources, targets := targets, table := r.1, curId := r.2.1, raw := r.2.2,
     edges := dropLoops r.2.2 }
 
-/-- `node_id_list.into_iter().filter(contains_key).partition(|id| assignment[table.get(id)])`;
-    `none` = BitVec index out of range -/
-def partitionIds (t : Table) (bits : Array Bool) : List Nat → Option (List Nat × List Nat)
-  | [] => some ([], [])
+/-- `node_id_list.into_iter().filter(contains_key).partition(|id| { let node = table.get(id);
+    node < assignment.len() && assignment[node] })` -/
+def partitionIds (t : Table) (bits : Array Bool) : List Nat → List Nat × List Nat
+  | [] => ([], [])
   | id :: rest =>
+    let lr := partitionIds t bits rest
     if t.containsKey id then
-      if t.get id < bits.size then
-        match partitionIds t bits rest with
-        | none => none
-        | some (l, r) => if gt bits (t.get id) then some (id :: l, r) else some (l, id :: r)
-      else none
-    else partitionIds t bits rest
+      if decide (t.get id < bits.size) && gt bits (t.get id) then (id :: lr.1, lr.2) else (lr.1, id :: lr.2)
+    else lr
 
 /-- fuel for the phase loop: every phase but the last pushes at least one unit and the flow is at most
     the number of (unit) edges; the driver reports `model-out-of-fuel` if this is ever not enough -/
 def phaseFuel (p : Prep) : Nat := p.edges.length + 2
+
+/-- `(flow, intermediate_assignment)` and the bound afterwards: without a connecting edge no solver
+    runs (flow 0, the one-bit vector `[true]`, `fetch_min(0)`); otherwise Dinic between 0 and 1.
+    `none` = panic branch / out of fuel; `some none` = aborted -/
+def solve (p : Prep) (bound : Int) : Option (Option (Int × Array Bool) × Int) :=
+  if p.edges.isEmpty then some (some (0, #[true]), min bound 0)
+  else
+    match Dinic.fromEdgeList p.edges 0 1 with
+    | none => none
+    | some d =>
+      match runBounded d (phaseFuel p) bound with
+      | none => none
+      | some (d', bound') =>
+        match d'.maxFlow? with
+        | .err => some (none, bound')
+        | .stuck => none
+        | .ok flow =>
+          match d'.assignment? 0 with
+          | .ok bits => some (some (flow, bits), bound')
+          | _ => none                            -- `expect("max flow computation did not run")`
 
 /-- the outcome of the step and the value of the shared bound afterwards.
     `sortedIds` must already be sorted as the Rust's sort leaves them; `k` = size_of_contraction;
@@ -175,26 +192,14 @@ def subStepSortedB (edges : List (Nat × Nat)) (sortedIds : List Nat) (k : Nat) 
   if k = 0 ∨ sortedIds.length < k then (.panic, bound)
   else
     let p := prep edges sortedIds k
-    match Dinic.fromEdgeList p.edges 0 1 with
-    | none => (.panic, bound)                    -- debug_assert!(!edge_list.is_empty())
-    | some d =>
-      match runBounded d (phaseFuel p) bound with
-      | none => (.panic, bound)
-      | some (d', bound') =>
-        match d'.maxFlow? with
-        | .err => (.aborted, bound')
-        | .stuck => (.panic, bound')
-        | .ok flow =>
-          match d'.assignment? 0 with
-          | .err => (.panic, bound')
-          | .stuck => (.panic, bound')
-          | .ok bits =>
-            match partitionIds p.table bits sortedIds with
-            | none => (.panic, bound')
-            | some (l, r) =>
-              -- debug_assert!(!left_ids.is_empty()); debug_assert!(!right_ids.is_empty())
-              if l.isEmpty ∨ r.isEmpty then (.panic, bound')
-              else (.ok { flow := flow, left := l, right := r }, bound')
+    match solve p bound with
+    | none => (.panic, bound)
+    | some (none, bound') => (.aborted, bound')
+    | some (some (flow, bits), bound') =>
+      let lr := partitionIds p.table bits sortedIds
+      -- debug_assert!(!left_ids.is_empty()); debug_assert!(!right_ids.is_empty())
+      if lr.1.isEmpty ∨ lr.2.isEmpty then (.panic, bound')
+      else (.ok { flow := flow, left := lr.1, right := lr.2 }, bound')
 
 def subStepSorted (edges : List (Nat × Nat)) (sortedIds : List Nat) (k : Nat) (bound : Int) : StepOut :=
   (subStepSortedB edges sortedIds k bound).1
